@@ -31,14 +31,17 @@ RULE = (
     "instants incl. the same instant) x every schedule choice. Oracle: processed multiset = accepted multiset (exactly once), "
     "per-sender FIFO, every marker carries the event of the macrostep it runs in, bracket markers of one action list are never "
     "separated by another event's reception, nothing is received before the initial entry has finished, legal final "
-    "configuration; distinct_nontrivial = distinct (variant, engine, script, schedule, reception order)"
+    "configuration. Sync threads (E3p): caller threads and the after-timer thread are virtual threads, every interleaving at "
+    "line granularity inside send / send_events / _process_event_queue with at most the stated number of preemptions is run; "
+    "oracle: when all threads have returned no event is left in the queue, every accepted event was processed exactly once, "
+    "per-sender order, no two threads inside _process_event at once, no thread raised; distinct_nontrivial = distinct (variant, engine, script, schedule, reception order)"
 )
 BOUNDS = {
-    "quick": "sync: sequences of length <=3 over 8 ops; async: scripts of length <=3 over a 3-point grid, all tie orders",
-    "thorough": "sync: length <=4; async: scripts of length <=4",
+    "quick": "sync: sequences of length <=3 over 8 ops; async: scripts of length <=3 over a 3-point grid, all tie orders; sync threads: 5 producer sets, every line-level interleaving with <=1-2 preemptions",
+    "thorough": "sync: length <=4; async: scripts of length <=4; sync threads: <=2-3 preemptions",
 }
 ASSUMPTIONS = [
-    "sync engine single-threaded here and with cooperative timer threads; line-level preemption between threads is explored separately (E3 preemptive slice) only for the drain flag",
+    "thread slice: scheduling points are the source lines of SyncInterpreter.send / send_events / _process_event_queue and every blocking call; two or three threads (callers, one after-timer thread); a timer's timeout may elapse at any point",
 ]
 ENGINES = ("sync", "async")
 GRID = (0.0, 0.0625, 0.125)
@@ -267,8 +270,20 @@ def run_one(engine: str, variant: str, script, prefix=None):
 VARIANTS = ("plain", "start-raise", "start-send", "start-go")
 
 
+PREEMPT = {
+    # variant -> preemption bound (quick, thorough)
+    "caller+timer": (2, 3),
+    "caller2+timer": (1, 2),
+    "two-callers": (2, 2),
+    "two-callers+timer": (1, 2),
+    "raiser+caller": (1, 2),
+}
+
+
 def units(tier: str) -> List[Any]:
     us = []
+    for variant, (bq, bt) in PREEMPT.items():
+        us.append(("preempt", variant, bq if tier == "quick" else bt))
     for engine in ENGINES:
         maxlen = (3 if tier == "quick" else 4) if engine == "sync" else (2 if tier == "quick" else 3)
         sc = scripts(maxlen, engine)
@@ -283,6 +298,28 @@ def units(tier: str) -> List[Any]:
 def run_unit(unit):
     engine, variant, batch = unit
     res = dict(states=0, transitions=0, executions=0, evaluations=0, distinct=[], violations=[], samples=[], caps=[])
+    if engine == "preempt":
+        from . import c04_preempt as P
+
+        bound = batch
+        results, n, capped = P.explore(variant, bound)
+        res["executions"] += n
+        res["evaluations"] += n
+        if capped:
+            res["caps"].append("max_execs per preemptive variant")
+        outcomes = set()
+        for taken, out in results:
+            outcomes.add(out["key"])
+            res["distinct"].append(hash(("preempt", variant, tuple(out["schedule"]))))
+            for clause, detail in out["bad"]:
+                res["violations"].append(dict(
+                    signature=f"C04|{clause}|sync-threads", clause=clause,
+                    what=f"sync engine, threads {sorted(P.VARIANTS[variant]['producers'])}{' + after-timer' if P.VARIANTS[variant]['timer'] else ''}: {clause}: {detail}; "
+                         f"{out['preemptions']} preemption(s), schedule {[__import__('re').sub(r'::[0-9a-f-]+', '', x) for x in out['schedule']]}",
+                    size=out["preemptions"] * 1000 + len(taken),
+                    replay=dict(engine="preempt", variant=variant, bound=bound, schedule=taken)))
+        res["samples"].append(dict(engine="sync-threads", variant=variant, preemption_bound=bound, schedules=n, distinct_outcomes=len(outcomes)))
+        return res
     for script in batch:
         try:
             results, n, capped = run_one(engine, variant, script)
@@ -309,6 +346,14 @@ def run_unit(unit):
 
 
 def replay(payload):
+    if payload["engine"] == "preempt":
+        from . import c04_preempt as P
+
+        out = P.run(payload["variant"], Choices(payload["schedule"]), payload["bound"])
+        print("  processing order:", out["order"], "schedule:", out["schedule"])
+        for clause, detail in out["bad"]:
+            print("  ", clause, detail)
+        return [dict(signature=f"C04|{c}|sync-threads", what=d) for c, d in out["bad"]]
     script = [tuple(x) for x in payload["script"]]
     out = run_one(payload["engine"], payload["variant"], script, prefix=payload["schedule"])
     vs = []
